@@ -181,7 +181,9 @@ theorem finalizeStandard_ne_panic (w : Writer) (W H : Nat) (md : Option Metadata
     · rw [h1]; simp
   · split
     · simp
-    · rw [h2]; simp
+    · split
+      · simp
+      · rw [h2]; simp
 
 theorem finalizeFastStart_ne_panic (w : Writer) (W H : Nat) (md : Option Metadata) (vc : VideoConfig)
     (h1 : moovPanics W H w.vsRev.reverse [] false = false)
@@ -203,9 +205,11 @@ theorem finalizeFastStart_ne_panic (w : Writer) (W H : Nat) (md : Option Metadat
       all_goals simp
 
 /-- the standard (non-fast-start) layout reports a size error only when the media payload
-    exceeds the 32-bit `mdat` box -/
+    exceeds the 32-bit `mdat` box or (with an audio track) the last chunk offset could exceed
+    32 bits: `ftypLen + 8 + payload ≤ u32Max` (`ftypLen = 24`) excludes both -/
 theorem finalizeStandard_ne_ioErr (w : Writer) (W H : Nat) (md : Option Metadata) (vc : VideoConfig)
-    (hp : 8 + ((w.vsRev.reverse.map (·.data.length)).sum + (w.asRev.reverse.map (·.data.length)).sum) ≤ u32Max)
+    (hp : ftypLen + 8 + ((w.vsRev.reverse.map (·.data.length)).sum + (w.asRev.reverse.map (·.data.length)).sum)
+      ≤ u32Max)
     (msg : String) : (finalizeStandard w W H md vc).res ≠ .ioErr msg := by
   unfold finalizeStandard
   simp only []
@@ -215,7 +219,9 @@ theorem finalizeStandard_ne_ioErr (w : Writer) (W H : Nat) (md : Option Metadata
     · split <;> simp
   · split
     · next hc => exfalso; omega
-    · split <;> simp
+    · split
+      · next hc => exfalso; omega
+      · split <;> simp
 
 /-- the layout stage of `finalize` (after the duration / dimension checks) -/
 def layoutOut (w : Writer) (W H : Nat) (md : Option Metadata) (fast : Bool) : FinOut :=
